@@ -170,4 +170,455 @@ Section OSim.
   Proof.
     intros Hr Hq. unfold o_enf. apply o_enf_loop_sim; auto. rewrite (length_W d). lia.
   Qed.
+
+  (* ---- index operations on related indexes ----------------------------------------------------- *)
+  Lemma aset_W (idx : list (str * nat)) (k : str) c :
+    aset str_eqb (W k) c (map wkey idx) = map wkey (aset str_eqb k c idx).
+  Proof.
+    induction idx as [|[k' i] idx IH]; [reflexivity|]. cbn [map wkey aset fst snd]. rewrite (str_eqb_W d).
+    destruct (str_eqb k k'); cbn [map wkey fst snd]; [reflexivity|]. rewrite IH. reflexivity.
+  Qed.
+
+  Lemma aremove_W (idx : list (str * nat)) (k : str) :
+    aremove str_eqb (W k) (map wkey idx) = map wkey (aremove str_eqb k idx).
+  Proof.
+    induction idx as [|[k' i] idx IH]; [reflexivity|]. cbn [map wkey aremove fst snd]. rewrite (str_eqb_W d).
+    destruct (str_eqb k k'); cbn [map wkey fst snd]; [exact IH|]. rewrite IH. reflexivity.
+  Qed.
+
+  Lemma keys_aset (idx : list (str * nat)) (k : str) c : keyok k ->
+    Forall (fun e : str * nat => keyok (fst e)) idx -> Forall (fun e : str * nat => keyok (fst e)) (aset str_eqb k c idx).
+  Proof.
+    intros Hk H. induction H as [|[k' i] idx Hk' H IH]; cbn [aset]; [constructor; [exact Hk|constructor]|].
+    destruct (str_eqb k k'); constructor; auto.
+  Qed.
+
+  Lemma keys_aremove (idx : list (str * nat)) (k : str) :
+    Forall (fun e : str * nat => keyok (fst e)) idx -> Forall (fun e : str * nat => keyok (fst e)) (aremove str_eqb k idx).
+  Proof.
+    intros H. induction H as [|[k' i] idx Hk' H IH]; cbn [aremove]; [constructor|].
+    destruct (str_eqb k k'); [exact IH|constructor; auto].
+  Qed.
+
+  Lemma ikey_aset_other (idx : list (str * nat)) (k k0 : str) c : k0 <> k -> ikey (aset str_eqb k c idx) k0 = ikey idx k0.
+  Proof.
+    intros Hne. unfold ikey. induction idx as [|[k' i] idx IH]; cbn [aset alookup].
+    - destruct (str_eqb_spec k0 k); [contradiction|reflexivity].
+    - destruct (str_eqb_spec k k') as [->|Hkk]; cbn [alookup].
+      + destruct (str_eqb_spec k0 k'); [contradiction|reflexivity].
+      + destruct (str_eqb k0 k'); [reflexivity|exact IH].
+  Qed.
+
+  Lemma ikey_aremove_other (idx : list (str * nat)) (k k0 : str) : k0 <> k -> ikey (aremove str_eqb k idx) k0 = ikey idx k0.
+  Proof.
+    intros Hne. unfold ikey. induction idx as [|[k' i] idx IH]; cbn [aremove alookup]; [reflexivity|].
+    destruct (str_eqb_spec k k') as [->|Hkk]; cbn [alookup].
+    - destruct (str_eqb_spec k0 k'); [contradiction|exact IH].
+    - destruct (str_eqb k0 k'); [reflexivity|exact IH].
+  Qed.
+
+  (* ---- heap operations on related heaps ---------------------------------------------------------- *)
+  Lemma oheap_upd hw hl i nw nl : Forall2 onrel hw hl -> onrel nw nl -> Forall2 onrel (oupd hw i nw) (oupd hl i nl).
+  Proof.
+    intros H Hn. revert i. induction H as [|a b hw hl Hab H IH]; intros [|i]; cbn [oupd]; constructor; auto.
+  Qed.
+
+  Lemma names_upd hl i nl : Forall names_ok hl -> names_ok nl -> Forall names_ok (oupd hl i nl).
+  Proof.
+    intros H Hn. revert i. induction H as [|b hl Hb H IH]; intros [|i]; cbn [oupd]; constructor; auto.
+  Qed.
+
+  Lemma oheap_length hw hl : Forall2 onrel hw hl -> length hw = length hl.
+  Proof. intros H. induction H; cbn [length]; congruence. Qed.
+
+  Lemma names_get hl i n : Forall names_ok hl -> oget hl i = Some n -> names_ok n.
+  Proof. intros H E. rewrite Forall_forall in H. apply H. unfold oget in E. eapply nth_error_In, E. Qed.
+
+  Ltac oget_cases hw hl i H Ew El nw nl Hn :=
+    let X := fresh in pose proof (@oheap_get hw hl i H) as X;
+    destruct (oget hw i) as [nw|] eqn:Ew; destruct (oget hl i) as [nl|] eqn:El; try contradiction; [rename X into Hn|clear X].
+
+  Lemma o_add_child_sim hw hl p name c : Forall2 onrel hw hl -> Forall2 onrel (o_add_child hw p name c) (o_add_child hl p name c).
+  Proof.
+    intros H. unfold o_add_child. oget_cases hw hl p H Ew El nw nl Hn; [|exact H].
+    apply oheap_upd; [exact H|]. destruct Hn as (E1 & E2 & E3 & E4 & E5). unfold onrel, on_with_ch, on_dir. cbn. rewrite E1. auto.
+  Qed.
+
+  Lemma names_aset (ch : list (str * nat)) (name : str) c :
+    map phi name = name /\ okstr name ->
+    Forall (fun e : str * nat => map phi (fst e) = fst e /\ okstr (fst e)) ch ->
+    Forall (fun e : str * nat => map phi (fst e) = fst e /\ okstr (fst e)) (aset str_eqb name c ch).
+  Proof.
+    intros Hn H. induction H as [|[k i] ch Hk H IH]; cbn [aset]; [constructor; [exact Hn|constructor]|].
+    destruct (str_eqb name k); constructor; auto.
+  Qed.
+
+  Lemma names_aremove (ch : list (str * nat)) (name : str) :
+    Forall (fun e : str * nat => map phi (fst e) = fst e /\ okstr (fst e)) ch ->
+    Forall (fun e : str * nat => map phi (fst e) = fst e /\ okstr (fst e)) (aremove str_eqb name ch).
+  Proof.
+    intros H. induction H as [|[k i] ch Hk H IH]; cbn [aremove]; [constructor|].
+    destruct (str_eqb name k); [exact IH|constructor; auto].
+  Qed.
+
+  Lemma o_add_child_names hl p name c : map phi name = name /\ okstr name -> Forall names_ok hl -> Forall names_ok (o_add_child hl p name c).
+  Proof.
+    intros Hn H. unfold o_add_child. destruct (oget hl p) as [n|] eqn:E; [|exact H].
+    apply names_upd; [exact H|]. unfold names_ok, on_with_ch. cbn [on_ch]. apply names_aset; [exact Hn|]. exact (names_get p H E).
+  Qed.
+
+  Lemma o_del_child_sim hw hl p name : Forall2 onrel hw hl -> Forall2 onrel (o_del_child hw p name) (o_del_child hl p name).
+  Proof.
+    intros H. unfold o_del_child. oget_cases hw hl p H Ew El nw nl Hn; [|exact H].
+    apply oheap_upd; [exact H|]. destruct Hn as (E1 & E2 & E3 & E4 & E5). unfold onrel, on_with_ch, on_dir. cbn. rewrite E1. auto.
+  Qed.
+
+  Lemma o_del_child_names hl p name : Forall names_ok hl -> Forall names_ok (o_del_child hl p name).
+  Proof.
+    intros H. unfold o_del_child. destruct (oget hl p) as [n|] eqn:E; [|exact H].
+    apply names_upd; [exact H|]. unfold names_ok, on_with_ch. cbn [on_ch]. apply names_aremove. exact (names_get p H E).
+  Qed.
+
+  Lemma o_release_sim hw hl c : Forall2 onrel hw hl -> Forall2 onrel (o_release hw c) (o_release hl c).
+  Proof.
+    intros H. unfold o_release. oget_cases hw hl c H Ew El nw nl Hn; [|exact H].
+    apply oheap_upd; [exact H|]. destruct Hn as (E1 & E2 & E3 & E4 & E5). unfold onrel, on_remove, on_dir in *. cbn.
+    rewrite E2, E3. auto.
+  Qed.
+
+  Lemma o_release_names hl c : Forall names_ok hl -> Forall names_ok (o_release hl c).
+  Proof.
+    intros H. unfold o_release. destruct (oget hl c) as [n|] eqn:E; [|exact H].
+    apply names_upd; [exact H|]. unfold names_ok, on_remove. cbn [on_ch]. constructor.
+  Qed.
 End OSim.
+
+(* ---- the calls --------------------------------------------------------------------------------------- *)
+Section OCalls.
+  Variable d : N.
+  Hypothesis Hd : is_letter d = true.
+  Notation W := (W d).
+  Notation orel := (orel d).
+  Notation wkey := (wkey d).
+
+  Lemma has_lor x y bit : has (N.lor x y) bit = has x bit || has y bit.
+  Proof.
+    unfold has. rewrite N.land_lor_distr_l.
+    destruct (N.eqb_spec (N.land x bit) 0) as [Ex|Ex]; destruct (N.eqb_spec (N.land y bit) 0) as [Ey|Ey]; cbn [negb orb].
+    - rewrite Ex, Ey. reflexivity.
+    - rewrite Ex. cbn [N.lor]. destruct (N.eqb_spec (N.land y bit) 0); [contradiction|reflexivity].
+    - destruct (N.eqb_spec (N.lor (N.land x bit) (N.land y bit)) 0) as [E|_]; [|reflexivity]. apply N.lor_eq_0_iff in E as [E _]. contradiction.
+    - destruct (N.eqb_spec (N.lor (N.land x bit) (N.land y bit)) 0) as [E|_]; [|reflexivity]. apply N.lor_eq_0_iff in E as [E _]. contradiction.
+  Qed.
+
+  Lemma dir_mode_dir os x : has (N.lor (dir_mode os) x) MODE_DIR = true.
+  Proof. rewrite has_lor. destruct os; reflexivity. Qed.
+
+  Lemma no_dir_bit x m um : N.land m MODE_DIR = 0%N -> has (N.ldiff (N.land x m) um) MODE_DIR = false.
+  Proof.
+    intros Hm. unfold has. assert (E : N.land (N.ldiff (N.land x m) um) MODE_DIR = 0%N).
+    { apply N.bits_inj. intros n. rewrite N.land_spec, N.ldiff_spec, N.land_spec, N.bits_0.
+      assert (Hb : N.testbit m n && N.testbit MODE_DIR n = false).
+      { rewrite <- N.land_spec, Hm. apply N.bits_0. }
+      destruct (N.testbit x n), (N.testbit m n), (N.testbit um n), (N.testbit MODE_DIR n); cbn in *; congruence. }
+    rewrite E. reflexivity.
+  Qed.
+
+  Lemma file_mode_nodir os x um : has (N.lor (file_mode os) (N.ldiff (N.land x FILE_MODE_MASK) um)) MODE_DIR = false.
+  Proof. rewrite has_lor, no_dir_bit by reflexivity. destruct os; reflexivity. Qed.
+
+  (* creation of a node under related states *)
+  Lemma o_create_node_sim sw sl (O : orel sw sl) parent (k name : str) mw ml :
+    keyok k -> k <> [] -> map phi name = name /\ okstr name -> has mw MODE_DIR = has ml MODE_DIR ->
+    orel (fst (o_create_node sw parent (W k) name mw)) (fst (o_create_node sl parent k name ml))
+    /\ snd (o_create_node sw parent (W k) name mw) = snd (o_create_node sl parent k name ml).
+  Proof.
+    intros Hk Hne Hn Hm. unfold o_create_node. cbn [fst snd].
+    rewrite (oheap_length (or_heap O)). split; [|reflexivity].
+    constructor; cbn [o_index o_heap o_last_id o_user o_umask o_os o_cwd].
+    - rewrite (or_index O). apply (aset_W d).
+    - apply keys_aset; [exact Hk|apply O].
+    - apply o_add_child_sim. apply Forall2_app; [apply O|]. constructor; [|constructor].
+      unfold onrel, on_dir. cbn. rewrite (or_id O). auto.
+    - apply o_add_child_names; [exact Hn|]. apply Forall_app. split; [apply O|]. constructor; [constructor|constructor].
+    - rewrite (or_id O). reflexivity.
+    - apply O.
+    - apply O.
+    - apply O.
+    - apply O.
+    - rewrite (ikey_aset_other _ _ (fun E : [] = k => Hne (eq_sym E))). apply O.
+  Qed.
+
+  Lemma o_create_dir_sim sw sl (O : orel sw sl) parent (k name : str) perm :
+    keyok k -> k <> [] -> map phi name = name /\ okstr name ->
+    orel (fst (o_create_dir sw parent (W k) name perm)) (fst (o_create_dir sl parent k name perm))
+    /\ snd (o_create_dir sw parent (W k) name perm) = snd (o_create_dir sl parent k name perm).
+  Proof.
+    intros Hk Hne Hn. unfold o_create_dir. rewrite (or_umask O). apply o_create_node_sim; auto.
+    rewrite !dir_mode_dir. reflexivity.
+  Qed.
+
+  Lemma o_create_file_sim sw sl (O : orel sw sl) parent (k name : str) perm :
+    keyok k -> k <> [] -> map phi name = name /\ okstr name ->
+    orel (fst (o_create_file sw parent (W k) name perm)) (fst (o_create_file sl parent k name perm))
+    /\ snd (o_create_file sw parent (W k) name perm) = snd (o_create_file sl parent k name perm).
+  Proof.
+    intros Hk Hne Hn. unfold o_create_file. rewrite (or_umask O). apply o_create_node_sim; auto.
+    rewrite !file_mode_nodir. reflexivity.
+  Qed.
+
+  Definition ocrel (xw xl : ofs * res) : Prop := orel (fst xw) (fst xl) /\ okres (snd xw) = okres (snd xl).
+
+  Lemma ocrel_fail sw sl ew el : orel sw sl -> ocrel (sw, RFail ew) (sl, RFail el).
+  Proof. intros O. split; [exact O|reflexivity]. Qed.
+  Lemma ocrel_same sw sl r : orel sw sl -> ocrel (sw, r) (sl, r).
+  Proof. intros O. split; [exact O|reflexivity]. Qed.
+
+  Lemma rooted_ne (q : str) : rooted q -> q <> [].
+  Proof. intros (r & ->). discriminate. Qed.
+
+  Lemma keyok_rooted (q : str) : okstr q -> rooted q -> keyok q.
+  Proof. intros H1 H2. split; [exact H1|right; exact H2]. Qed.
+
+  (* the search for the nearest existing ancestor (Mkdir) *)
+  Lemma ikey_short (idx : list (str * nat)) : ikey (map wkey idx) [d] = None.
+  Proof.
+    unfold ikey. induction idx as [|[k i] idx IH]; [reflexivity|]. cbn [map alookup]. unfold wkey at 1. cbn [fst snd].
+    unfold PathEquiv.W, vol. cbn [app str_eqb]. rewrite N.eqb_refl. cbn [andb]. exact IH.
+  Qed.
+
+  Lemma o_up_loop_volroot sw sl (O : orel sw sl) fw : o_up_loop fw sw (W []) = None.
+  Proof.
+    destruct fw as [|fw]; [reflexivity|]. cbn [o_up_loop]. rewrite (or_osw O).
+    assert (E : osplit Windows (W []) = Some ([d], [])) by reflexivity. rewrite E.
+    unfold ofind at 1. rewrite (or_index O), ikey_short.
+    destruct fw as [|fw]; [reflexivity|]. cbn [o_up_loop]. rewrite (or_osw O).
+    assert (E2 : osplit Windows [d] = None).
+    { unfold osplit. cbn. destruct (d_not_slash d Hd) as [H1 H2].
+      assert (Hs : is_slash d = false).
+      { unfold is_slash. destruct (N.eqb_spec d BSLASH); [contradiction|]. destruct (N.eqb_spec d SLASH); [contradiction|]. reflexivity. }
+      rewrite Hs. cbn. destruct (N.eqb_spec d BSLASH); [contradiction|]. destruct (N.eqb_spec d SLASH); [contradiction|]. reflexivity. }
+    rewrite E2. reflexivity.
+  Qed.
+
+  Lemma o_up_loop_sim sw sl (O : orel sw sl) : forall fl fw (q : str), okstr q -> rooted q ->
+    length q < fl -> length q < fw ->
+    match o_up_loop fw sw (W q), o_up_loop fl sl q with
+    | Some nw, Some nl => on_dir nw = on_dir nl
+    | None, None => True
+    | _, _ => False
+    end.
+  Proof.
+    induction fl as [|fl IH]; intros fw q Hok Hroot Hl Hw; [lia|]. destruct fw as [|fw]; [lia|].
+    cbn [o_up_loop]. rewrite (or_osw O), (or_osl O).
+    destruct (@osplit_W d q Hok Hroot) as (dl & fl' & E1 & E2 & (Hokd & Hkd) & _ & _ & Hlt & _). rewrite E1, E2.
+    pose proof (@ofind_W d sw sl dl O) as Hf.
+    destruct (ofind sw (W dl)) as [[iw nw]|]; destruct (ofind sl dl) as [[il nl]|]; try contradiction.
+    - apply Hf.
+    - destruct Hkd as [->|Hrd].
+      + rewrite (o_up_loop_volroot O). destruct fl; reflexivity.
+      + apply IH; [exact Hokd|exact Hrd|lia|lia].
+  Qed.
+
+
+  Ltac use_abs sw sl r O Hok q Hoka Hra :=
+    let Ea := fresh "Ea" in
+    destruct (@oabs_W d Hd sw sl r O Hok) as (Ea & Hoka & Hra); rewrite Ea; clear Ea;
+    set (q := oabs sl (SLASH :: r)) in *.
+
+  Ltac use_split q Hoka Hra dl fl E1 E2 Hkd Hokf Hmp Hlt Hq :=
+    destruct (@osplit_W d q Hoka Hra) as (dl & fl & E1 & E2 & Hkd & Hokf & Hmp & Hlt & Hq).
+
+  Ltac use_find sw sl k O iw nw il nl Hi Hn :=
+    let Hf := fresh "Hf" in let Efl := fresh "Efl" in
+    pose proof (@ofind_W d sw sl k O) as Hf;
+    destruct (ofind sw (W k)) as [[iw nw]|]; destruct (ofind sl k) as [[il nl]|] eqn:Efl; try contradiction;
+    [destruct Hf as (Hi & Hn); subst iw|clear Hf].
+
+  Lemma ofind_get sl (k : str) i n : ofind sl k = Some (i, n) -> oget (o_heap sl) i = Some n.
+  Proof.
+    unfold ofind. destruct (ikey (o_index sl) k) as [j|]; [|discriminate].
+    destruct (oget (o_heap sl) j) eqn:E; [|discriminate]. intros [= <- <-]. exact E.
+  Qed.
+
+  Lemma ofind_names sw sl (O : orel sw sl) (k : str) i n : ofind sl k = Some (i, n) -> names_ok n.
+  Proof. intros E. exact (@names_get (o_heap sl) i n (or_names O) (@ofind_get sl k i n E)). Qed.
+
+  Ltac expose_W :=
+    match goal with |- context [PathEquiv.W d (SLASH :: ?r)] =>
+      change (PathEquiv.W d (SLASH :: r)) with (d :: COLON :: BSLASH :: map phi r) end.
+
+  (* ---- Mkdir -------------------------------------------------------------------------------------- *)
+  Lemma o_mkdir_sim sw sl (O : orel sw sl) (r : str) perm : okstr (SLASH :: r) ->
+    ocrel (o_mkdir sw (W (SLASH :: r)) perm) (o_mkdir sl (SLASH :: r) perm).
+  Proof.
+    intros Hok. unfold o_mkdir.
+    destruct (@oabs_W d Hd sw sl r O Hok) as (Ea & Hoka & Hra).
+    set (qw := oabs sw (W (SLASH :: r))) in *. set (q := oabs sl (SLASH :: r)) in *. expose_W. cbv iota.
+    rewrite Ea, (or_osw O), (or_osl O).
+    use_split q Hoka Hra dl fl E1 E2 Hkd Hokf Hmp Hlt Hq. rewrite E1, E2.
+    use_find sw sl q O iw nw il nl Hi Hn; [apply ocrel_fail, O|].
+    use_find sw sl dl O pw pnw pl pnl Hpi Hpn.
+    - destruct Hpn as (_ & _ & _ & _ & Hdir). rewrite Hdir. destruct (negb (on_dir pnl)); [apply ocrel_fail, O|].
+      destruct (@o_create_dir_sim sw sl O pl q fl perm (keyok_rooted Hoka Hra) (rooted_ne Hra) (conj Hmp Hokf)) as [O1 _].
+      split; [exact O1|reflexivity].
+    - destruct Hkd as (Hokd & [->|Hrd]).
+      + rewrite (o_up_loop_volroot O). cbn [length]. cbn [o_up_loop]. rewrite (or_osl O).
+        change (osplit Linux []) with (@None (str * str)). apply ocrel_same, O.
+      + pose proof (@o_up_loop_sim sw sl O (S (length dl)) (S (length (W dl))) dl Hokd Hrd) as Hu.
+        rewrite (length_W d) in Hu. specialize (Hu ltac:(lia) ltac:(lia)). rewrite (length_W d).
+        destruct (o_up_loop (S (2 + length dl)) sw (W dl)); destruct (o_up_loop (S (length dl)) sl dl); try contradiction;
+          [apply ocrel_fail, O|apply ocrel_same, O].
+  Qed.
+
+  (* ---- MkdirAll ----------------------------------------------------------------------------------- *)
+  Lemma o_missing_sim sw sl (O : orel sw sl) : forall fl fw (q : str) (ds : list str), keyok q ->
+    Forall (fun p : str => okstr p /\ rooted p) ds ->
+    length q < fl -> length q < fw ->
+    match o_missing fw sw (W q) (map W ds), o_missing fl sl q ds with
+    | inl rw, inl rl => okres rw = okres rl
+    | inr (dsw, iw), inr (dsl, il) => dsw = map W dsl /\ iw = il /\ Forall (fun p : str => okstr p /\ rooted p) dsl
+    | _, _ => False
+    end.
+  Proof.
+    induction fl as [|fl IH]; intros fw q ds Hq Hds Hl Hw; [lia|]. destruct fw as [|fw]; [lia|].
+    cbn [o_missing].
+    use_find sw sl q O iw nw il nl Hi Hn.
+    - destruct Hn as (_ & _ & _ & _ & Hdir). rewrite Hdir. destruct (on_dir nl); [auto|reflexivity].
+    - rewrite (or_osw O), (or_osl O). destruct Hq as (Hokq & [->|Hrq]).
+      + change (osplit Linux []) with (@None (str * str)).
+        assert (E : osplit Windows (W []) = Some ([d], [])) by reflexivity. rewrite E.
+        destruct fw as [|fw]; [reflexivity|]. cbn [o_missing].
+        unfold ofind at 1. rewrite (or_index O), ikey_short. rewrite (or_osw O).
+        assert (E2 : osplit Windows [d] = None).
+        { unfold osplit. cbn. destruct (d_not_slash d Hd) as [H1 H2].
+          assert (Hs : is_slash d = false).
+          { unfold is_slash. destruct (N.eqb_spec d BSLASH); [contradiction|]. destruct (N.eqb_spec d SLASH); [contradiction|]. reflexivity. }
+          rewrite Hs. cbn. destruct (N.eqb_spec d BSLASH); [contradiction|]. destruct (N.eqb_spec d SLASH); [contradiction|]. reflexivity. }
+        rewrite E2. reflexivity.
+      + use_split q Hokq Hrq dl fl' E1 E2 Hkd Hokf Hmp Hlt Hqeq. rewrite E1, E2.
+        replace (map W ds ++ [W q]) with (map W (ds ++ [q])) by (rewrite map_app; reflexivity).
+        apply IH; [exact Hkd| |lia|lia]. apply Forall_app. split; [exact Hds|constructor; [split; assumption|constructor]].
+  Qed.
+
+  Lemma split_abs_file (q : str) : okstr q -> rooted q ->
+    snd (split_abs Windows (W q)) = snd (split_abs Linux q)
+    /\ map phi (snd (split_abs Linux q)) = snd (split_abs Linux q) /\ okstr (snd (split_abs Linux q)).
+  Proof.
+    intros Hok Hr. use_split q Hok Hr dl fl E1 E2 Hkd Hokf Hmp Hlt Hq.
+    assert (H1 : split_abs Linux q = (dl, fl)).
+    { unfold osplit in E1. destruct (Nat.eqb _ 0) in E1; [discriminate|]. congruence. }
+    assert (H2 : split_abs Windows (W q) = (W dl, fl)).
+    { unfold osplit in E2. destruct (Nat.eqb _ 0) in E2; [discriminate|]. congruence. }
+    rewrite H1, H2. cbn [snd]. auto.
+  Qed.
+
+  Lemma o_create_chain_sim perm : forall (ps : list str) sw sl parent, orel sw sl ->
+    Forall (fun p : str => okstr p /\ rooted p) ps ->
+    orel (o_create_chain sw parent (map W ps) perm) (o_create_chain sl parent ps perm).
+  Proof.
+    induction ps as [|p ps IH]; intros sw sl parent O Hps; [exact O|].
+    inversion Hps as [|? ? (Hokp & Hrp) Hps']; subst. cbn [map o_create_chain].
+    rewrite (or_osw O), (or_osl O).
+    destruct (split_abs_file Hokp Hrp) as (Ef & Hmp & Hokf). rewrite Ef.
+    destruct (@o_create_dir_sim sw sl O parent p (snd (split_abs Linux p)) perm (keyok_rooted Hokp Hrp) (rooted_ne Hrp) (conj Hmp Hokf)) as [O1 Ec].
+    destruct (o_create_dir sw parent (W p) (snd (split_abs Linux p)) perm) as [sw1 cw].
+    destruct (o_create_dir sl parent p (snd (split_abs Linux p)) perm) as [sl1 cl]. cbn [fst snd] in O1, Ec. subst cw.
+    apply IH; assumption.
+  Qed.
+
+  Lemma o_mkdir_all_sim sw sl (O : orel sw sl) (r : str) perm : okstr (SLASH :: r) ->
+    ocrel (o_mkdir_all sw (W (SLASH :: r)) perm) (o_mkdir_all sl (SLASH :: r) perm).
+  Proof.
+    intros Hok. unfold o_mkdir_all. use_abs sw sl r O Hok q Hoka Hra.
+    use_find sw sl q O iw nw il nl Hi Hn.
+    - destruct Hn as (_ & _ & _ & _ & Hdir). rewrite Hdir. destruct (on_dir nl); [apply ocrel_same, O|apply ocrel_fail, O].
+    - pose proof (@o_missing_sim sw sl O (S (length q)) (S (length (W q))) q [] (keyok_rooted Hoka Hra) (Forall_nil _)) as Hm.
+      rewrite (length_W d) in Hm. specialize (Hm ltac:(lia) ltac:(lia)). cbn [map] in Hm. rewrite (length_W d).
+      destruct (o_missing (S (2 + length q)) sw (W q) []) as [rw|[dsw iw]];
+        destruct (o_missing (S (length q)) sl q []) as [rl|[dsl il]]; try contradiction.
+      + split; [exact O|exact Hm].
+      + destruct Hm as (-> & -> & Hds). split; [|reflexivity]. cbn [fst]. rewrite <- map_rev.
+        apply o_create_chain_sim; [exact O|]. apply Forall_rev, Hds.
+  Qed.
+
+  (* ---- updates of one node --------------------------------------------------------------------------- *)
+  Lemma orel_with_heap sw sl hw hl : orel sw sl -> Forall2 onrel hw hl -> Forall names_ok hl ->
+    orel (o_with_heap sw hw) (o_with_heap sl hl).
+  Proof. intros O H Hn. destruct O. constructor; cbn; auto. Qed.
+
+  Lemma orel_with sw sl idx hw hl : orel sw sl -> Forall (fun e : str * nat => keyok (fst e)) idx ->
+    ikey idx [] <> None -> Forall2 onrel hw hl -> Forall names_ok hl ->
+    orel (o_with sw (map wkey idx) hw) (o_with sl idx hl).
+  Proof. intros O Hk Hr H Hn. destruct O. constructor; cbn; auto. Qed.
+
+  Lemma onrel_data nw nl dt : onrel nw nl -> onrel (on_with_data nw dt) (on_with_data nl dt).
+  Proof. intros (E1 & E2 & E3 & E4 & E5). unfold onrel, on_with_data, on_dir in *. cbn. auto. Qed.
+
+  Lemma names_data nl dt : names_ok nl -> names_ok (on_with_data nl dt).
+  Proof. intros H. exact H. Qed.
+
+  Lemma onrel_meta nw nl mw ml : onrel nw nl -> has (m_mode mw) MODE_DIR = has (m_mode ml) MODE_DIR ->
+    onrel (on_with_meta nw mw) (on_with_meta nl ml).
+  Proof. intros (E1 & E2 & E3 & E4 & E5) Hm. unfold onrel, on_with_meta, on_dir in *. cbn. auto. Qed.
+
+  Lemma with_mode_dir m mode : has (m_mode (with_mode m mode)) MODE_DIR = has (m_mode m) MODE_DIR.
+  Proof.
+    unfold with_mode. cbn [m_mode]. rewrite has_lor.
+    assert (H1 : has (N.land mode FILE_MODE_MASK) MODE_DIR = false).
+    { pose proof (@no_dir_bit mode FILE_MODE_MASK 0 eq_refl) as H. rewrite N.ldiff_0_r in H. exact H. }
+    rewrite H1, orb_false_r. unfold has. f_equal. f_equal.
+    apply N.bits_inj. intros n. rewrite !N.land_spec, N.ldiff_spec.
+    destruct (N.testbit MODE_DIR n) eqn:Eb; [|rewrite !andb_false_r; reflexivity].
+    assert (Hf : N.testbit FILE_MODE_MASK n = false).
+    { assert (H : N.testbit (N.land FILE_MODE_MASK MODE_DIR) n = false) by (change (N.land FILE_MODE_MASK MODE_DIR) with 0%N; apply N.bits_0).
+      rewrite N.land_spec, Eb, andb_true_r in H. exact H. }
+    rewrite Hf. cbn. rewrite andb_true_r. reflexivity.
+  Qed.
+
+  (* ---- OpenFile ------------------------------------------------------------------------------------- *)
+  Definition ohdrel (fw fl : handle) : Prop :=
+    hd_node fw = hd_node fl /\ hd_at fw = hd_at fl /\ hd_mode fw = hd_mode fl
+    /\ hd_dir_infos fw = None /\ hd_dir_infos fl = None /\ hd_dir_names fw = None /\ hd_dir_names fl = None
+    /\ hd_dir_index fw = hd_dir_index fl /\ hd_name fw <> [] /\ hd_name fl <> [] /\ hd_node fl <> None.
+
+  Definition oorel (xw xl : ofs * (res + handle)) : Prop :=
+    orel (fst xw) (fst xl) /\
+    match snd xw, snd xl with
+    | inl a, inl b => okres a = okres b
+    | inr fw, inr fl => ohdrel fw fl
+    | _, _ => False
+    end.
+
+  Lemma ohdrel_new c (r : str) at_ om : ohdrel (new_handle c 0 (W (SLASH :: r)) at_ om) (new_handle c 0 (SLASH :: r) at_ om).
+  Proof. unfold ohdrel, new_handle. cbn. repeat split; auto; discriminate. Qed.
+
+  Lemma o_open_file_sim sw sl (O : orel sw sl) (r : str) flag perm : okstr (SLASH :: r) ->
+    oorel (o_open_file sw (W (SLASH :: r)) flag perm) (o_open_file sl (SLASH :: r) flag perm).
+  Proof.
+    intros Hok. unfold o_open_file.
+    destruct (@oabs_W d Hd sw sl r O Hok) as (Ea & Hoka & Hra). rewrite Ea.
+    set (q := oabs sl (SLASH :: r)) in *. rewrite (or_osw O), (or_osl O).
+    use_split q Hoka Hra dl fl E1 E2 Hkd Hokf Hmp Hlt Hq. rewrite E1, E2.
+    set (om := to_open_mode flag).
+    use_find sw sl q O iw nw il nl Hi Hn.
+    - destruct Hn as (Ech & Edt & Enl & Eid & Hdir). rewrite Hdir, Edt. destruct (on_dir nl) eqn:Edir.
+      + destruct (has om OpenCreateExcl); [split; [exact O|reflexivity]|].
+        destruct (has om OpenWrite || has om OpenCreate || has om OpenTruncate); [split; [exact O|reflexivity]|].
+        split; [exact O|apply ohdrel_new].
+      + destruct (has om OpenCreateExcl); [split; [exact O|reflexivity]|].
+        split; [|apply ohdrel_new]. cbn [fst].
+        pose proof (oheap_get il (or_heap O)) as Hg.
+        apply orel_with_heap; [exact O| |].
+        * apply oheap_upd; [apply O|]. apply onrel_data. unfold onrel. repeat split; try assumption; congruence.
+        * apply names_upd; [apply O|]. apply names_data. exact (@ofind_names sw sl O q il nl Efl).
+    - use_find sw sl dl O pw pnw pl pnl Hpi Hpn.
+      + destruct Hpn as (_ & _ & _ & _ & Hdir). rewrite Hdir.
+        destruct (negb (on_dir pnl)); [split; [exact O|reflexivity]|].
+        destruct (negb (has om OpenCreate)); [split; [exact O|reflexivity]|].
+        destruct (@o_create_file_sim sw sl O pl q fl perm (keyok_rooted Hoka Hra) (rooted_ne Hra) (conj Hmp Hokf)) as [O1 Ec].
+        destruct (o_create_file sw pl (W q) fl perm) as [sw1 cw]. destruct (o_create_file sl pl q fl perm) as [sl1 cl].
+        cbn [fst snd] in O1, Ec. subst cw. split; [exact O1|apply ohdrel_new].
+      + split; [exact O|]. cbn [snd]. apply o_enf_sim; [exact O|reflexivity|exact (keyok_rooted Hoka Hra)].
+  Qed.
+End OCalls.
